@@ -26,7 +26,7 @@ func (t *Transport) RoundTrip(req *http.Request) (resp *http.Response, err error
 	if err != nil {
 		return
 	}
-	if resp.ProtoMajor != 3 && t.altSvcJar != nil {
+	if resp.ProtoMajor != 3 && t.altSvcJar != nil && t.forceHttpVersion == "" && req.URL.Scheme == "https" {
 		if v := resp.Header.Get("alt-svc"); v != "" {
 			t.handleAltSvc(req, v)
 		}
